@@ -108,7 +108,7 @@ def window_op(chk, rule, facts, C, bd, label, lens, reduce_, op, WN=2, irredunda
     ncases = 0
     try:
         E = ElemKind(facts, C.elem)
-        it = Interp(facts, max_paths=20000, max_steps=80000000)
+        it = Interp(facts, max_paths=20000, max_steps=12000000)     # needs 1.1M today
         it.prune = True
         it.cmp_split = True
         it.split_all = True
@@ -217,7 +217,7 @@ def window_to_lut(chk, rule, facts, C, bd, label, n, varset, L, reduce_, lut_wor
     key = "%s n=%d, %d real term(s) over variables %s" % (label, n, L, sorted(varset))
     try:
         E = ElemKind(facts, C.elem)
-        it = Interp(facts, max_paths=4096, max_steps=1500000)    # 30x what the conversions need today (about 47 000 steps at n = 10)
+        it = Interp(facts, max_paths=4096, max_steps=300000)    # 6x what the conversions need today (about 47 000 steps at n = 10)
         it.prune = True
         st = State()
         names = ["t%d" % j for j in range(L)]
@@ -354,7 +354,7 @@ def window_value(chk, rule, facts, C, L, reduce_, WN=2):
         atoms = [a for nm in names for a in E.atoms(nm, WN)] + ["m[%d]" % i_ for i_ in range(WN)]
         canon = tuple(c for nm in names for c in E.canon(nm, WN))
         space = Space(atoms, canon)
-        it = Interp(facts, max_paths=8192, max_steps=50000000)
+        it = Interp(facts, max_paths=8192, max_steps=200000)     # needs 4 100 today
         it.prune = True
         it.cmp_split = True
         it.space = space
